@@ -106,6 +106,11 @@ def probes(fd):
     add("tablesfile", ["--tables-file=p.tables"], 'tables-file="p.tables"', lambda b: (b.frc == 0 and os.path.exists(os.path.join(b.wd, "p.tables")), b.ferr[:100]), run=False, link=False)
     add("lexcompat", ["-l"], "lex-compat", lambda b: (okrun(b) and "arr=1" in b.rout, b.rout + b.cout[-200:]), sect3='int main(void) { while (yylex()) ; printf("arr=%d\\n", sizeof(yytext) > sizeof(char *)); return 0; }')
     add("posixcompat", ["-X"], "posix-compat", lambda b: (okrun(b) and "hits=1" in b.rout, b.rout), rules=["ab{2}   { hits++; }", "\\n ;", ". ;"], inp=b"abab\n")
+    # a prefixed scanner finds its own set in a serialized tables file (the set is named <prefix>tables)
+    add("prefix_tablesfile", ["-Pzz", "--tables-file=p.tables"], 'prefix="zz" tables-file="p.tables"',
+        lambda b: (b.frc == 0 and b.crc == 0 and getattr(b, "lrc", 1) == 0 and b.rrc == 0 and "load=0 hits=1" in b.rout, (b.rout + b.rerr + b.cout)[-200:]),
+        sect3='int main(void) { FILE *f = fopen("p.tables", "rb"); int r = f ? zztables_fload(f) : -9; printf("load=%d ", r); if (r == 0) { while (zzlex()) ; } printf("hits=%d\\n", hits); zztables_destroy(); return 0; }',
+        rules=["a+   { hits++; }", "\\n   ;", ".    ;"])
     # character-set size and table representation: the options and the documented defaults
     hi = ["[\\x80-\\xff]+   { hits++; }", "\\n   ;", ".    ;"]
     hiin = b"\x80\xff\n"
